@@ -6,7 +6,7 @@ use crate::process_request::process_request;
 /// sequential part: one versioned / plain write or increment against an arbitrary resident or absent key
 pub fn c02_seq() {
     let n = mk_primary();
-    create_db(&n.dbs, "d", "none");
+    mk_db(&n.dbs, "d", "none");
     let (mut c, mut rx) = db_client(&n.dbs, "d");
     let present = vsym::any_bool("present");
     let cur = vsym::any_i32("cur");
@@ -73,7 +73,7 @@ pub fn c02_seq() {
 pub fn c02_race2() {
     use vstd::sync::Arc;
     let n = mk_primary();
-    create_db(&n.dbs, "d", "none");
+    mk_db(&n.dbs, "d", "none");
     let cur = vsym::any_i32("cur");
     vsym::assume(cur >= 1 && cur < 1000);
     poke(&n.dbs, "d", "k", &String::from("v0"), cur, ValueStatus::Ok, 0, 0);
